@@ -30,6 +30,9 @@ pub struct TlCall {
     pub timeout: u64,
     pub lat: LatRel,
     pub ok: bool,
+    /// the inner call is busy (drains the cooperative budget on every poll) instead of idle
+    #[serde(default)]
+    pub busy: bool,
 }
 
 #[derive(Clone, Debug, Serialize, Deserialize)]
@@ -67,12 +70,14 @@ fn case_strategy(_tier: Tier) -> BoxedStrategy<TlCase> {
         timeout_strategy(),
         lat,
         prop::bool::weighted(0.6),
+        prop::bool::weighted(0.25),
     )
-        .prop_map(|(at, timeout, lat, ok)| TlCall {
+        .prop_map(|(at, timeout, lat, ok, busy)| TlCall {
             at,
             timeout,
             lat,
             ok,
+            busy,
         });
     (
         timeout_strategy(),
@@ -146,7 +151,11 @@ async fn interp(case: &TlCase) -> Verdict {
         table.insert(
             i as u32,
             vec![Step {
-                lat: lats[i].map_or(Lat::Never, Lat::Ms),
+                lat: match lats[i] {
+                    None => Lat::Never,
+                    Some(ms) if case.calls[i].busy && ms > 0 => Lat::Busy(ms),
+                    Some(ms) => Lat::Ms(ms),
+                },
                 out: if case.calls[i].ok { Out::Ok } else { Out::Err(4) },
             }],
         );
@@ -365,6 +374,9 @@ async fn interp(case: &TlCase) -> Verdict {
     }
     if case.drop_service {
         classes.push("service_dropped_after_last_call");
+    }
+    if case.calls.iter().any(|c| c.busy) {
+        classes.push("busy_inner_call");
     }
     Verdict {
         violations,
